@@ -18,6 +18,9 @@ pub struct HwScn {
     pub w: WProg,
     #[serde(default)]
     pub wplan: Plan,
+    /// also run the history through ShapeWriter::from_path over longer pre-existing files
+    #[serde(default)]
+    pub path: bool,
 }
 
 /// What the model says a history leaves behind: every W(i) is written, every Other(i) rejected.
@@ -220,7 +223,88 @@ pub fn execute(scn: &HwScn, ctx: &mut Ctx) {
         check_bytes(ctx, ty, &shp_b, if p.with_shx { Some(&shx_b) } else { None }, &geoms, "plain");
     }
     check_bytes(ctx, ty, &shp, if p.with_shx { Some(&shx) } else { None }, &geoms, hsite);
+    if scn.path && p.with_shx {
+        path_route(ctx, scn, &run.geoms, ty, &shp, &shx, hsite, &pat);
+    }
     ctx.stats.distinct.insert(crate::prng::fnv_str(&format!("{}|{}|{}|{:?}", ty, pat, p.with_shx, p.stack)));
+}
+
+/// The same history through ShapeWriter::from_path, over a destination path that already holds
+/// longer files: after every successful finalize the files ON DISK must be a complete shapefile
+/// with the shapes written so far, and the final files must equal the in-memory ones.
+#[allow(clippy::too_many_arguments)]
+fn path_route(ctx: &mut Ctx, scn: &HwScn, geoms: &[Geom], ty: i32, mem_shp: &[u8], mem_shx: &[u8], hsite: &str, pat: &str) {
+    use crate::on_shape;
+    let p = &scn.w;
+    let dir = crate::scratch_dir();
+    let base = dir.join(format!("hw-{}", crate::prng::fnv_str(&serde_json::to_string(&scn.w).unwrap_or_default())));
+    let shp_path = base.with_extension("shp");
+    let shx_path = base.with_extension("shx");
+    let mut old = mem_shp.to_vec();
+    old.extend_from_slice(mem_shp);
+    old.extend_from_slice(&[0x5A; 200]);
+    let _ = std::fs::write(&shp_path, &old);
+    let _ = std::fs::write(&shx_path, &old);
+    let Ok(shapes) = build_all(&p.shapes) else { return };
+    let Ok(others) = build_all(&p.others) else { return };
+    let mut so_far: Vec<usize> = Vec::new();
+    let mut bad: Vec<String> = Vec::new();
+    let r = guarded(|| -> Result<(), shapefile::Error> {
+        let mut w = shapefile::ShapeWriter::from_path(&shp_path)?;
+        for c in &p.calls {
+            match c {
+                WCall::W(i) if *i < shapes.len() => {
+                    on_shape!(&shapes[*i], s => w.write_shape(s)?, ());
+                    so_far.push(*i);
+                }
+                WCall::Other(i) if *i < others.len() => {
+                    let _ = on_shape!(&others[*i], s => w.write_shape(s), Ok(()));
+                }
+                WCall::Fin | WCall::FinRetry => {
+                    w.finalize()?;
+                    let disk = std::fs::read(&shp_path).unwrap_or_default();
+                    match decode(&disk) {
+                        Err(e) => bad.push(format!("after a finalize the .shp on disk is rejected by the strict decoder: {}", e)),
+                        Ok(d) => {
+                            if d.recs.len() != so_far.len() || d.recs.iter().zip(so_far.iter()).any(|(r, i)| diff(&geoms[*i], &r.geom, ty == 31, true).is_some()) {
+                                bad.push(format!("after a finalize the .shp on disk holds {} records, {} shapes were written", d.recs.len(), so_far.len()));
+                            } else if let Err(e) = check_index(&disk, &std::fs::read(&shx_path).unwrap_or_default(), &d) {
+                                bad.push(format!("after a finalize the .shx on disk is inconsistent: {}", e));
+                            }
+                        }
+                    }
+                }
+                _ => {}
+            }
+        }
+        match &p.ending {
+            Ending::Drop => {}
+            Ending::FinDrop => w.finalize()?,
+            Ending::WriteShapes(l) => {
+                for i in l.iter().filter(|i| **i < shapes.len()) {
+                    on_shape!(&shapes[*i], s => w.write_shape(s)?, ());
+                }
+            }
+        }
+        Ok(())
+    });
+    ctx.stats.reach("path-route");
+    match r {
+        Err(pi) => ctx.fail("C09", "panic", pi.site(), format!("history {} by path: {}", pat, pi.text())),
+        Ok(Err(e)) => ctx.fail("C09", "path-write", "from_path", format!("history {} by path failed: {:?}", pat, classify(&e))),
+        Ok(Ok(())) => {
+            for b in bad.iter().take(1) {
+                ctx.fail("C09", "complete-after-finalize", format!("{}:path", hsite), format!("history {} by path over pre-existing files: {}", pat, b));
+            }
+            let disk_shp = std::fs::read(&shp_path).unwrap_or_default();
+            let disk_shx = std::fs::read(&shx_path).unwrap_or_default();
+            if disk_shp != mem_shp || disk_shx != mem_shx {
+                ctx.fail("C09", "same-as-drop", format!("{}:path", hsite), format!("history {} by path over pre-existing files: final files differ from the in-memory ones ({} / {} bytes on disk, {} / {} in memory)", pat, disk_shp.len(), disk_shx.len(), mem_shp.len(), mem_shx.len()));
+            }
+        }
+    }
+    let _ = std::fs::remove_file(&shp_path);
+    let _ = std::fs::remove_file(&shx_path);
 }
 
 fn first_diff(a: &[u8], b: &[u8]) -> Option<usize> {
@@ -267,7 +351,7 @@ pub fn c09_sweep_unit(unit: u64, max_len: usize, ctx: &mut Ctx, ctl: &mut UnitCt
                 1 => Ending::FinDrop,
                 _ => Ending::WriteShapes(vec![1, 0]),
             };
-            let scn = HwScn { w: WProg { shapes: vec![a.clone(), b.clone()], others: vec![], calls, ending, with_shx, stack }, wplan: Plan::default() };
+            let scn = HwScn { w: WProg { shapes: vec![a.clone(), b.clone()], others: vec![], calls, ending, with_shx, stack }, wplan: Plan::default(), path: with_shx && stack == StackCfg::Direct && seq.len() == 3 };
             if !ctl.before_case(|| Scenario::HistW(scn.clone())) {
                 continue;
             }
@@ -306,7 +390,7 @@ pub fn c10_sweep_unit(unit: u64, max_len: usize, ctx: &mut Ctx, ctl: &mut UnitCt
                     1 => Ending::FinDrop,
                     _ => Ending::WriteShapes(vec![0]),
                 };
-                let scn = HwScn { w: WProg { shapes: vec![a.clone(), b.clone()], others: vec![other.clone()], calls, ending, with_shx, stack }, wplan: Plan::default() };
+                let scn = HwScn { w: WProg { shapes: vec![a.clone(), b.clone()], others: vec![other.clone()], calls, ending, with_shx, stack }, wplan: Plan::default(), path: false };
                 if !ctl.before_case(|| Scenario::HistW(scn.clone())) {
                     continue;
                 }
@@ -379,5 +463,122 @@ pub fn generate(r: &mut Rng, focus: &str) -> HwScn {
         wplan.dev[SHP] = gen_devcfg(r, true);
         wplan.dev[SHX] = gen_devcfg(r, true);
     }
-    HwScn { w: WProg { shapes, others, calls, ending, with_shx: r.chance(3, 4), stack: gen_stack(r) }, wplan }
+    let with_shx = r.chance(3, 4);
+    HwScn { w: WProg { shapes, others, calls, ending, with_shx, stack: gen_stack(r) }, wplan, path: with_shx && r.chance(1, 24) }
+}
+
+// ---------------------------------------------------------------------------------------------
+// C10 with a user-defined shape: `EsriShape` is a public trait, so a caller can offer a shape of
+// another type that announces any size. The type check must come first whatever the size.
+
+#[derive(Clone, Debug, Serialize, Deserialize)]
+pub struct FakeOfferScn {
+    /// type of the file (set by a first ordinary write)
+    pub ty: i32,
+    /// type code the user-defined shape claims: 1, 3 or 31
+    pub fake_code: i32,
+    /// size in bytes it announces
+    pub announced: u64,
+    pub with_shx: bool,
+}
+
+struct Fake<const CODE: i32> {
+    announced: usize,
+}
+impl<const CODE: i32> shapefile::HasShapeType for Fake<CODE> {
+    fn shapetype() -> shapefile::ShapeType {
+        shapefile::ShapeType::from(CODE).unwrap()
+    }
+}
+impl<const CODE: i32> shapefile::record::WritableShape for Fake<CODE> {
+    fn size_in_bytes(&self) -> usize {
+        self.announced
+    }
+    fn write_to<T: std::io::Write>(&self, _dest: &mut T) -> Result<(), shapefile::Error> {
+        Ok(())
+    }
+}
+impl<const CODE: i32> shapefile::record::EsriShape for Fake<CODE> {
+    fn x_range(&self) -> [f64; 2] {
+        [-1e9, 1e9]
+    }
+    fn y_range(&self) -> [f64; 2] {
+        [-1e9, 1e9]
+    }
+}
+
+pub fn execute_fake(scn: &FakeOfferScn, ctx: &mut Ctx) {
+    use crate::on_shape;
+    if !TYPES.contains(&scn.ty) || ![1, 3, 31].contains(&scn.fake_code) || scn.fake_code == scn.ty {
+        ctx.fail("HARNESS", "invalid-scenario", "fake", "bad fake offer".to_string());
+        return;
+    }
+    let first = grid_spec(scn.ty, 1, 2, 3);
+    let run_one = |offer: bool| -> Option<(Vec<u8>, Vec<u8>, Option<(CallRes, usize)>)> {
+        let world = World::new(Plan::default());
+        let shp = Stack::writer(&world, SHP, StackCfg::Direct);
+        let mut w = if scn.with_shx { shapefile::ShapeWriter::with_shx(shp, Stack::writer(&world, SHX, StackCfg::Direct)) } else { shapefile::ShapeWriter::new(shp) };
+        let sh = build_all(std::slice::from_ref(&first)).ok()?.remove(0);
+        let r0 = guarded(|| on_shape!(&sh, s => w.write_shape(s), Ok(())));
+        if !matches!(r0, Ok(Ok(()))) {
+            return None;
+        }
+        let mut offered = None;
+        if offer {
+            let ev0 = world.borrow().log.len();
+            let a = scn.announced as usize;
+            let r = guarded(|| match scn.fake_code {
+                1 => w.write_shape(&Fake::<1> { announced: a }),
+                3 => w.write_shape(&Fake::<3> { announced: a }),
+                _ => w.write_shape(&Fake::<31> { announced: a }),
+            });
+            let res = match r {
+                Ok(Ok(())) => CallRes::Ok,
+                Ok(Err(e)) => CallRes::Err(classify(&e)),
+                Err(p) => CallRes::Panic(p.msg, p.loc),
+            };
+            offered = Some((res, world.borrow().log.len() - ev0));
+        }
+        let _ = guarded(move || drop(w));
+        let wb = world.borrow();
+        Some((wb.data(SHP).to_vec(), wb.data(SHX).to_vec(), offered))
+    };
+    let (Some((shp_a, shx_a, Some((res, events)))), Some((shp_b, shx_b, _))) = (run_one(true), run_one(false)) else {
+        ctx.fail("HARNESS", "invalid-scenario", "fake", "the first write failed".to_string());
+        return;
+    };
+    ctx.stats.evaluations += 0;
+    let want = CallRes::Err(RErr::Mismatch { requested: scn.ty, actual: scn.fake_code });
+    let what = format!("a user-defined {} announcing {} bytes offered to a {} writer", type_name(scn.fake_code), scn.announced, type_name(scn.ty));
+    if res != want {
+        ctx.fail("C10", "rejected-error", format!("user-defined:{}", if scn.announced > i32::MAX as u64 { "huge" } else { "small" }), format!("{} returned {}", what, res.short()));
+    }
+    if events != 0 {
+        ctx.fail("C10", "rejected-no-io", "user-defined", format!("{} caused {} device operations", what, events));
+    }
+    if shp_a != shp_b || shx_a != shx_b {
+        ctx.fail("C10", "same-as-without-rejected", "user-defined", format!("{}: final files differ from those of the history without it", what));
+    }
+    ctx.stats.reach("user-defined-shape-offered");
+    ctx.stats.distinct.insert(crate::prng::fnv_str(&format!("fake|{}|{}|{}|{}", scn.ty, scn.fake_code, scn.announced, scn.with_shx)));
+}
+
+pub fn fake_unit(unit: u64, ctx: &mut Ctx, ctl: &mut UnitCtl) {
+    let ty = TYPES[(unit % 13) as usize];
+    for fake_code in [1, 3, 31] {
+        if fake_code == ty {
+            continue;
+        }
+        for announced in [0u64, 16, 1 << 20, (i32::MAX as u64) * 2 - 8, (i32::MAX as u64) * 2, 1 << 33, 1 << 40, u64::MAX / 4, u64::MAX - 4, u64::MAX] {
+            for with_shx in [true, false] {
+                let scn = FakeOfferScn { ty, fake_code, announced, with_shx };
+                if !ctl.before_case(|| Scenario::FakeOffer(scn.clone())) {
+                    continue;
+                }
+                ctx.stats.evaluations += 1;
+                execute_fake(&scn, ctx);
+                ctl.after_case(ctx, || Scenario::FakeOffer(scn.clone()));
+            }
+        }
+    }
 }
